@@ -265,8 +265,10 @@ def is_write(sql):
 class Trace(object):
     """statement + signal trace of one run; optional fault at the k-th write statement"""
 
-    def __init__(self, alias='default', fail_at=None, fail_filter=None, fail_first=None):
+    def __init__(self, alias='default', fail_at=None, fail_filter=None, fail_first=None, fail_release_at=None):
         self.alias = alias
+        self.fail_release_at = fail_release_at      # the k-th RELEASE SAVEPOINT fails (a transaction cannot be finished)
+        self.releases = 0
         self.fail_first = fail_first       # predicate on the statement: the first matching write fails
         self.events = []
         self.fail_at = fail_at
@@ -289,6 +291,14 @@ class Trace(object):
                 self.failed_sql = sql
                 self.events.append(('fault', sql))
                 raise OperationalError('injected fault at write #%d' % idx)
+        if not w and sql.lstrip().upper().startswith('RELEASE SAVEPOINT'):
+            idx = self.releases
+            self.releases += 1
+            if self.fail_release_at is not None and idx == self.fail_release_at:
+                from django.db.utils import OperationalError
+                self.failed_sql = sql
+                self.events.append(('fault', sql))
+                raise OperationalError('injected fault at RELEASE SAVEPOINT #%d' % idx)
         self.events.append(('sql' if w else 'read', sql, params))
         return execute(sql, params, many, context)
 
